@@ -204,6 +204,9 @@ def run(ck: Check):
         bad = [nm for nm in ("after", "reloaded") if st[nm] != st["before"]]
         if st.get("second") is not None and st["second"] != st["before"]:
             bad.append("second")
+        if st.get("codegen"):
+            ck.disagree("get_c_code() on a handle returned by load() (no model) returned a program instead of raising", dict(case, observed=st["codegen"]),
+                        signature={"what": "recompile-loaded", "kind": "codegen"})
         if bad:
             ck.disagree("compile() on a handle returned by load() was accepted and changed what the handle / the saved library computes",
                         dict(case, accepted=st["accepted"], differs=bad, before=st["before"][:2], after=st["after"][:2]),
